@@ -12,3 +12,6 @@ import MimicProps.C04
 #print axioms MimicProps.C04.reassemble_any_segmentation
 #print axioms MimicProps.C04.header_is_code
 #print axioms MimicProps.C04.header_read_is_code
+#print axioms MimicProps.C04.write_is_code
+#print axioms MimicProps.C04.code_write_preserves_order
+#print axioms MimicProps.C04.code_max_packet
